@@ -422,6 +422,9 @@ func genC13(e *emitter, r *rng, tier string) {
 		}
 		ex := r.pick([]int{-5, -1, 0, 1, 7, minInt, maxInt})
 		emit3(fmt.Sprintf("T:%s:%s:%d", digitsCSV(f), digitsCSV(rep), ex), 3*(fl+rl)+4)
+		if r.coin(25) { // empty lists as empty non-nil slices
+			emit3(fmt.Sprintf("TE:%s:%s:%d", digitsCSV(f), digitsCSV(rep), ex), 3*(fl+rl)+4)
+		}
 		if r.coin(40) { // the two lists are windows of one caller buffer
 			emit3(fmt.Sprintf("TS:%s:%s:%d", digitsCSV(f), digitsCSV(rep), ex), 3*(fl+rl)+4)
 		}
